@@ -4,18 +4,29 @@ Real classes with 0..40 fields, names that collide with the code templates' glob
 count created in varying order (shared, patched code templates), pairs of instances, every single-field assignment of
 fixed-size structures.  The predicates are the property's own; the Lean model (`Instance.lean`) gives the unbounded
 statements and is compared on equality / bool / init.
+
+Added probes (harness/s6_c17.py) on fixed-size structures with bit-field runs, enums, char/int arrays, nested and anonymous
+members and unusual-but-legal field names (`_`, `__`, `_1`, dunder- / private- / template-internal-looking names; F19 names
+stay confined to the batch above):
+  * names: for every field a pair of instances differing in exactly that field (`==`/`!=` against the field-wise
+    comparison) and an instance whose only non-zero field it is (bool), parsed, keyword-constructed and assigned;
+  * hash histories: hash / set / dict use, then field assignments (also in place inside a nested structure), then
+    comparison with a never-hashed instance holding equal fields: `==`, equal hash, mutual set / dict membership;
+  * boundary assignments: bit-fields 0, 1, 2**n-1, 2**n, 2**n+1, -1, integers / array entries / enum values min, max, min-1,
+    max+1 on all-zero, all-ones and random instances: rejected with an error, or only bits of that field (as determined by
+    single-bit probing of the reader) change and a representable value reads back.
 """
 from __future__ import annotations
 
 import itertools
 
-from .. import defs, impl, refimpl
+from .. import defs, impl, refimpl, s6_c17
 from ..common import Case, Result, mkrng
 from ..structprops import rand_bytes
 
 RISKY = ["any", "hash", "other", "class_", "None_", "size", "fields", "type", "value", "all", "tuple", "obj", "r", "s", "o", "stream", "context",
          "data", "buf", "lookup", "alignment", "dynamic", "cs", "read", "name", "i", "_0", "_1", "x_0"]
-F19_NAMES = ["self", "cls", "__class__", "_values", "_sizes", "dumps", "write"]
+F19_NAMES = ["self", "cls", "__class__", "_values", "_sizes", "dumps", "write", "__dict__", "__weakref__"]
 TYPES = ["uint8", "int8", "uint16", "int32", "uint64", "uint24", "char", "float", "E8"]
 
 
@@ -24,7 +35,9 @@ def run(env) -> Result:
     res.rule = ("structures with 0..40 fields of scalar/array/nested types, field names drawn from identifiers that collide with the "
                 "generated templates' globals and locals, batches of classes with equal field counts created in shuffled order (shared "
                 "templates), loaded compiled and interpreted; pairs of instances (identical bytes, one differing field, other class with the same "
-                "layout); init positional/keyword/partial; every single-field assignment of fixed-size structures (dump locality). distinct = "
+                "layout); init positional/keyword/partial; every single-field assignment of fixed-size structures (dump locality). s6_c17: unusual field names with a differing pair / "
+                "only-non-zero instance for every field, hash-then-assign histories against a never-hashed twin, boundary-value assignments with "
+                "bit-level locality. distinct = "
                 "(definition, instance bytes, operation); non-trivial = >= 2 fields")
     dc = impl.dc()
     rnd = mkrng(env["seed"], "c17")
@@ -177,6 +190,8 @@ def run(env) -> Result:
                     lo, hi = fk.offset, fk.offset + fk.type.size
                     if len(after) != len(before) or after[:lo] != before[:lo] or after[hi:] != before[hi:] or after[lo:hi] != donor_bytes[lo:hi]:
                         viol(f"assigning field {fk._name} changed bytes outside [{lo},{hi}) or did not store the value", cd, sig)
+    # unusual field names (every field: differing pair / only non-zero field), hash histories, boundary-value assignments
+    s6_c17.run(env, res, viol, mkrng(env["seed"], "c17:s6"), 6 if tier == "quick" else 80)
     res.sample({"field_counts": counts, "colliding_names": RISKY[:8]})
     return res
 
